@@ -57,6 +57,22 @@ def _impl(tier, seed, search):
         # --- constructors follow the documented orders ------------------------------------------
         L.close(f'rpy2r-order-{o}', b.rpy2r(a, order=o), fwd_rpy(a, o), 1e-12, 1.0, dict(angles=a, order=o))
         L.close('rpy2r-deg', b.rpy2r(np.degrees(a), order=o, unit='deg'), b.rpy2r(a, order=o), 1e-12, 1.0, dict(angles=a, order=o))
+        # axis-angle constructors of every class with an axis that is not of unit length: rotation by theta about the normalised axis
+        if o == 'zyx':
+            vax_ = inputs.unit_axis(g) * 10.0 ** g.uniform(-1, 1); tha_ = float(g.uniform(-3, 3)); wantav_ = inputs.rodrigues(vax_ / np.linalg.norm(vax_), tha_)
+            for cn_, f_ in (('SO3.AngVec', lambda: SO3.AngVec(tha_, vax_).A), ('SE3.AngVec', lambda: SE3.AngVec(tha_, vax_).A[:3, :3]), ('UnitQuaternion.AngVec', lambda: UnitQuaternion.AngVec(tha_, vax_).R),
+                            ('UnitQuaternion.AngVec(deg)', lambda: UnitQuaternion.AngVec(math.degrees(tha_), vax_, unit='deg').R), ('angvec2r', lambda: b.angvec2r(tha_, vax_)), ('UnitQuaternion.AngVec(theta, theta*v)', lambda: UnitQuaternion.AngVec(tha_, tha_ * vax_ / np.linalg.norm(vax_) if tha_ > 0 else vax_).R)):
+                ok, r_ = L.noraise(cn_, f_, dict(theta=tha_, v=vax_), cn_)
+                if ok: L.close(f'{cn_}(non-unit axis)', r_, wantav_, 1e-7 if 'Quaternion' in cn_ else 1e-9, 1.0, dict(theta=tha_, v=vax_), what=f'{cn_} with an axis that is not of unit length is not the rotation by theta about the normalised axis', sig=f'class-angvec:{cn_.split("(")[0]}')
+        # Euler angles next to the singularity (middle angle 1e-13 .. 1e-9 from 0 or pi, outside the singular branch) of matrices that carry
+        # ordinary rounding noise (a product and its undoing): rebuilding reproduces R
+        if o == 'xyz':
+            mid_ = float(g.choice([0.0, math.pi])) + float(g.choice([-1, 1])) * 10.0 ** g.uniform(-13, -9.5); En_ = RZ(a[0]) @ RY(mid_) @ RZ(a[2]); An_ = inputs.so3(g); Rn_ = An_.T @ (An_ @ En_)
+            for fl_ in (False, True):
+                ok, r_ = L.noraise('tr2eul(near singular, noisy)', lambda: (b.eul2r(b.tr2eul(Rn_, flip=fl_)), b.eul2r(SO3(Rn_, check=False).eul(flip=fl_)), b.eul2r(b.tr2eul(Rn_, flip=fl_, unit='deg'), unit='deg')), dict(R=Rn_, middle=mid_, flip=fl_), 'tr2eul next to the singularity')
+                if ok:
+                    for nn_, got_ in zip(('tr2eul', 'SO3.eul', 'tr2eul(deg)'), r_):
+                        L.close(f'eul-roundtrip(near singular, noisy):{nn_}', got_, Rn_, TOL, 1.0, dict(R=Rn_, middle=mid_, flip=fl_), what='eul2r(tr2eul(R)) differs from R next to the Euler singularity for a matrix carrying rounding noise', sig='eul-roundtrip:near-singular-noisy')
         # … several triples at once (N x 3), both units, in each class: value k is the documented product for triple k
         if o in ('zyx', 'xyz', 'yxz'):
             a2_ = np.array([a, a[::-1] * 0.5]); 
@@ -172,6 +188,13 @@ def _impl(tier, seed, search):
         if ok:
             L.close('xyt-roundtrip', b.xyt2tr(x), T2, TOL, max(1.0, float(np.max(np.abs(xyt[:2])))), dict(xyt=xyt))
             L.check('xyt-range', abs(x[2]) <= PI + 1e-12, dict(xyt=xyt), 'planar angle out of range')
+        # the scalar forms of the planar constructor on the x-axis with zero heading, and with zero y only
+        if i % 7 == 0:
+            xs0 = float(g.choice([3.0, -2.5, 0.5]))
+            for nm_, mk_, want_ in (('SE2(x,0,0)', lambda: SE2(xs0, 0, 0).A, b.xyt2tr([xs0, 0, 0])), ('SE2(x,0.0,0.0)', lambda: SE2(xs0, 0.0, 0.0).A, b.xyt2tr([xs0, 0, 0])), ('SE2(x,0,th)', lambda: SE2(xs0, 0, 0.7).A, b.xyt2tr([xs0, 0, 0.7])),
+                                    ('SE2(0,y,0)', lambda: SE2(0, xs0, 0).A, b.xyt2tr([0, xs0, 0])), ('SE2(*SE2([x,0,0]).xyt())', lambda: SE2(*SE2([xs0, 0, 0]).xyt()).A, b.xyt2tr([xs0, 0, 0])), ('SE2(x,0)', lambda: SE2(xs0, 0).A, b.xyt2tr([xs0, 0, 0]))):
+                ok, r = L.noraise(nm_, mk_, dict(x=xs0), nm_)
+                if ok: L.close(nm_, r, want_, 1e-12, 3.0, dict(x=xs0), what=f'{nm_} is not the pose (x, y, theta) it was given', sig='SE2(scalars)')
         # the class accessor on one and on several values (every quadrant), both units
         if i % 3 == 0:
             xs_ = [xyt, np.r_[xyt[1], -xyt[0], -xyt[2]], np.r_[1.0, 2.0, float(g.choice([2.0, -2.5, 3.0, -0.4]))]]
